@@ -279,29 +279,36 @@ func c02(c *core.Ctx) {
 		}
 	}
 
-	rH := c.Rule("C02.hdrorder", "in flushLocked the in-place header rewrite (seek to start + write of the serialized header) is reachable only after both block writes succeeded", 2)
+	rH := c.Rule("C02.hdrorder", "in the function that appends a block (block header + data writes), the in-place file header rewrite (write of the serialized FileHeader) is reachable only after both block writes succeeded", 2)
 	{
-		f := c.Fn(pkgV2 + ".FileWriter.flushLocked")
-		info := f.Info()
-		fl := core.NewFlow(p, info, f.Decl.Body)
-		var blockWrites []*ast.CallExpr
-		var hdrWrite *ast.CallExpr
-		core.Calls(f.Decl.Body, false, func(call *ast.CallExpr) {
-			if !core.IsCallTo(info, call, "os.File.Write") || len(call.Args) != 1 {
-				return
-			}
-			if ac, ok := core.Unparen(call.Args[0]).(*ast.CallExpr); ok && core.IsWsCallTo(info, ac, pkgV2+".FileHeader.Serialize") {
-				hdrWrite = call
-			} else {
-				blockWrites = append(blockWrites, call)
-			}
-		})
-		if hdrWrite == nil || len(blockWrites) == 0 {
-			rH.Bad(f.Key+":writes", f.Decl.Pos(), "flushLocked no longer has block writes followed by a header rewrite")
+		bws := v2BlockWriters(c)
+		if len(bws) == 0 {
+			rH.Bad(pkgV2+":block-writer", token.NoPos, "no function writes a serialized BlockHeader to the file any more")
 		}
-		for _, bw := range blockWrites {
-			ok, why := fl.OnlyAfterSuccess(f.Decl.Body, bw, hdrWrite)
-			rH.Check(ok, f.Key+":"+core.ExprStr(bw.Args[0])+"->header", bw.Pos(), "header counts are rewritten only after this write succeeded", "the header can be rewritten although a block write failed ("+why+"): counts run ahead of the data")
+		for _, f := range bws {
+			info := f.Info()
+			fl := core.NewFlow(p, info, f.Decl.Body)
+			var blockWrites []*ast.CallExpr
+			var hdrWrite *ast.CallExpr
+			core.Calls(f.Decl.Body, false, func(call *ast.CallExpr) {
+				if !core.IsCallTo(info, call, "os.File.Write") || len(call.Args) != 1 {
+					return
+				}
+				if ac, ok := core.Unparen(call.Args[0]).(*ast.CallExpr); ok && core.IsWsCallTo(info, ac, pkgV2+".FileHeader.Serialize") {
+					hdrWrite = call
+				} else {
+					blockWrites = append(blockWrites, call)
+				}
+			})
+			if hdrWrite == nil {
+				// the counts are brought up to date elsewhere (Sync/Close write the header after a flush: C01.flush)
+				rH.Ok(f.Key+":no-inline-header", f.Decl.Pos(), "no header rewrite next to the block writes")
+				continue
+			}
+			for _, bw := range blockWrites {
+				ok, why := fl.OnlyAfterSuccess(f.Decl.Body, bw, hdrWrite)
+				rH.Check(ok, f.Key+":"+core.ExprStr(bw.Args[0])+"->header", bw.Pos(), "header counts are rewritten only after this write succeeded", "the header can be rewritten although a block write failed ("+why+"): counts run ahead of the data")
+			}
 		}
 	}
 
@@ -362,46 +369,45 @@ func c25(c *core.Ctx) {
 	p := c.P
 	c.Explain = "Static necessary conditions for 'write failures never corrupt durable data': on the failure edge of each block write in flushLocked every path to the exit passes a rollback that truncates the file back to the block start (no torn block stays in the middle of the log); error results of file and writer operations in the storage packages are not discarded except for the frozen list of best-effort cleanups on failure paths."
 	c.NotCovered = []string{"behaviour under injected faults (short writes, ENOSPC) at run time", "retention of the entries of the failed block (they are dropped; the statement only requires earlier and later records to stay readable)", "errors logged and skipped by chroniclerV2.Write / fileWriterHandler (record stays in memory only)"}
-	rP := c.Rule("C25.partial", "in flushLocked, when a block header/data write fails, every path to the function exit passes a call that reaches (*os.File).Truncate (the partial block is cut off and the append position restored)", 2)
-	f := c.Fn(pkgV2 + ".FileWriter.flushLocked")
-	info := f.Info()
-	fl := core.NewFlow(p, info, f.Decl.Body)
+	rP := c.Rule("C25.partial", "in the function that appends a block, when the block header/data write fails, every path to the function exit passes a call that reaches (*os.File).Truncate (the partial block is cut off and the append position restored)", 2)
 	n := 0
-	core.Calls(f.Decl.Body, false, func(call *ast.CallExpr) {
-		if !core.IsCallTo(info, call, "os.File.Write") || len(call.Args) != 1 {
-			return
-		}
-		if ac, ok := core.Unparen(call.Args[0]).(*ast.CallExpr); ok && core.IsWsCallTo(info, ac, pkgV2+".FileHeader.Serialize") {
-			return // header rewrite in place: fixed size, not an append
-		}
-		n++
-		edges, ok := fl.FailEdgesOfCall(f.Decl.Body, call)
-		construct := f.Key + ":Write(" + core.ExprStr(call.Args[0]) + ")"
-		if !ok {
-			rP.Bad(construct, call.Pos(), "the error of a block write is not tested")
-			return
-		}
-		isRollback := core.NodeHasCall(func(c2 *ast.CallExpr) bool {
-			if core.IsCallTo(info, c2, "os.File.Truncate") {
-				return true
+	for _, f := range v2BlockWriters(c) {
+		info := f.Info()
+		fl := core.NewFlow(p, info, f.Decl.Body)
+		core.Calls(f.Decl.Body, false, func(call *ast.CallExpr) {
+			if !core.IsCallTo(info, call, "os.File.Write") || len(call.Args) != 1 {
+				return
 			}
-			if t := p.ByObj[core.Callee(info, c2)]; t != nil {
-				c.Touch(t)
-				return callsQ(t, "os.File.Truncate")
+			if ac, ok := core.Unparen(call.Args[0]).(*ast.CallExpr); ok && core.IsWsCallTo(info, ac, pkgV2+".FileHeader.Serialize") {
+				return // header rewrite in place: fixed size, not an append
 			}
-			return false
+			n++
+			edges, ok := fl.FailEdgesOfCall(f.Decl.Body, call)
+			construct := f.Key + ":Write(" + core.ExprStr(call.Args[0]) + ")"
+			if !ok {
+				rP.Bad(construct, call.Pos(), "the error of a block write is not tested")
+				return
+			}
+			isRollback := core.NodeHasCall(func(c2 *ast.CallExpr) bool {
+				if core.IsCallTo(info, c2, "os.File.Truncate") {
+					return true
+				}
+				if t := p.ByObj[core.Callee(info, c2)]; t != nil {
+					c.Touch(t)
+					return callsQ(t, "os.File.Truncate")
+				}
+				return false
+			})
+			// every path from the write on which its error is not known to be nil must roll back
+			succ, _ := fl.SuccessEdgesOfCall(f.Decl.Body, call)
+			lw := fl.MustLocate(call)
+			good := !fl.ExitWithout(lw, succ, false, isRollback)
+			_ = edges
+			rP.Check(good, construct, call.Pos(), "failure path truncates back to the block start", "a failed or partial block write returns without cutting the partial block off: later blocks are appended behind a torn block and can never be read")
 		})
-		good := true
-		for e := range edges {
-			tgt := int(fl.G.Blocks[e.From].Succs[e.Succ].Index)
-			if fl.ExitWithout(core.Loc{B: tgt, I: -1}, nil, false, isRollback) {
-				good = false
-			}
-		}
-		rP.Check(good, construct, call.Pos(), "failure path truncates back to the block start", "a failed or partial block write returns without cutting the partial block off: later blocks are appended behind a torn block and can never be read")
-	})
+	}
 	if n == 0 {
-		rP.Bad(f.Key+":block-writes", f.Decl.Pos(), "no block writes found in flushLocked")
+		rP.Bad(pkgV2+":block-writes", token.NoPos, "no block writes found in the storage writer")
 	}
 
 	rE := c.Rule("C25.errors", "no error result of a file, writer, reader or compaction operation is discarded in the storage packages, except best-effort cleanups on paths that already report a failure (frozen list)", 30)
